@@ -152,6 +152,13 @@ func c12Gen(g *core.Gen) {
 		g.Emit(&c12Case{Kind: "partition", Len: l, D: 2, P: 2, GLo: 1, GHi: 41})
 		g.Emit(&c12Case{Kind: "partition", Len: l, D: 3, P: 2, GLo: 1, GHi: 41})
 	}
+	// codes with more rows (several missing rows per goroutine): short and medium shards x g 1..16
+	for l := 2; l <= 200; l += 2 {
+		g.Emit(&c12Case{Kind: "partition", Len: l, D: 6, P: 5, GLo: 1, GHi: 17})
+		if l <= 100 || g.Thorough() {
+			g.Emit(&c12Case{Kind: "partition", Len: l, D: 9, P: 8, GLo: 1, GHi: 13})
+		}
+	}
 	for _, l := range []int{1024, 4096, 4098, 65536, 65550} {
 		g.Emit(&c12Case{Kind: "partition", Len: l, D: 3, P: 2, GLo: 1, GHi: 41})
 		g.Emit(&c12Case{Kind: "partition", Len: l, D: 2, P: 2, GLo: 4090, GHi: 4100})
@@ -238,7 +245,7 @@ func init() {
 		ID:      "C12",
 		AltArch: true, // the alternate binary here is the -race build
 		Level:   "model_checking",
-		Rule: "(i) partition arithmetic, full product through the real GenerateParity/ReconstructData: every even shard length 2..600 (+1024..65550) x goroutine count 1..40 (and > number of 16-byte units) x codes (2,2),(3,2), compared with g=1; " +
+		Rule: "(i) partition arithmetic, full product through the real GenerateParity/ReconstructData: every even shard length 2..600 (+1024..65550) x goroutine count 1..40 (and > number of 16-byte units) x codes (2,2),(3,2), and every even length 2..200 x g 1..16 x codes (6,5),(9,8) (several missing rows per goroutine), compared with g=1; " +
 			"(ii) controlled-scheduler exploration of the real worker goroutines (sources instrumented from the current tree and injected with go build -overlay): for encode and reconstruct configurations (workers x kernel calls), EVERY interleaving at kernel-call/synchronisation granularity (unbounded), and every interleaving with <=2 (thorough 3) preemptions at statement granularity; per execution: output == single-goroutine bytes, recorded kernel access sets of different workers conflict-free, no deadlock; " +
 			"(iii) Create / Repair through par2 for g in 1..12 byte-identical to g=1; (iv) the same bodies free-running under the race detector (separate -race build, GOMAXPROCS 1,2,4,16). non-trivial = executions with >=2 runnable threads at some choice point / g>1 cases",
 		Assumptions: []string{"the controlled scheduler is sequentially consistent; weak-memory effects are covered only by the race-detector pass (no race => SC)", "scheduling points: spawn, exit, WaitGroup/Mutex operations, kernel calls, and (statement granularity) every statement of the instrumented files"},
